@@ -813,7 +813,10 @@ class C13(Prop):
             "every operator, function, macro and conversion applicable at that type (each also forced at the root), operands spelled as literals or "
             "bound as variables; evaluate on the interpreter and the compiled runner; compare the class of the returned object (by identity) and the "
             "vector of `type(e) == T` for the twelve names evaluated inside CEL with (a) the Lean model, (b) the type computed by an independent "
-            "type checker over the generated AST. non-trivial = distinct case whose root is an operator/function/macro/conversion (not a bare literal) "
+            "type checker over the generated AST. Round 2: systematic families — type() of every kind, of every type NAME and of types (chains); `in` for every "
+            "(item type x container kind), found/not found/empty; every binary rule on identity/boundary operands and on ONE bound object "
+            "on both sides; every string predicate hit/miss; conversions to the type a value already has — and every program is evaluated TWICE on "
+            "the same input (classes of both results must agree), the two runners in either order. non-trivial = distinct case whose root is an operator/function/macro/conversion (not a bare literal) "
             "and that produced a value")
 
     # -- generation ---------------------------------------------------------------------------------------------
